@@ -401,6 +401,13 @@ def step (st : St) (toks : List String) : St × List Issue :=
     match pset cpus with
     | some c => ({ st with tree := st.tree ++ [(level, name, c)] }, [])
     | none => (st, [⟨.parse, "BL"⟩])
+  | ["BZ", zs] =>
+    -- C04 (balloons half): the allocations confined to an assigned zone never exceed its capacity
+    if zs == "-" then (st, []) else
+    let bad := (zs.splitOn ",").filter fun z => match z.splitOn ":" with
+      | [_, f] => (f.toInt?.getD 0) < 0
+      | _ => false
+    if bad.isEmpty then (st, []) else report st [s!"C04:assigned-zone-oversubscribed {bad}"]
   | ["BE"] =>
     let down := (st.lastEv.headD "").startsWith "down-"
     -- Synchronize, re-configuration and restart release everything and re-admit the containers one by one
